@@ -236,8 +236,18 @@ def proto_line(op):
         return str(op)
 
 
-def check_C03(tr):
+def check_C03(tr, expiration=None):
     out = []
+    # a sweep retires a nameplate legitimately only when its mailbox is neither subscribed nor recently
+    # active (the history-only ghost of check_C12); any other deletion by a sweep does not end the incarnation
+    early = set()
+    if expiration is not None:
+        for f in check_C12(tr, expiration):
+            if f.clause == "a sweep keeps a mailbox that is subscribed or recently active":
+                early.add((f.step, tuple(f.detail["mailbox"])))
+            elif f.clause == "sweeping one mailbox removes nothing of another" and "nameplate" in f.detail:
+                r = f.detail["nameplate"]
+                early.add((f.step, (r[1], r[3])))
     inc = {}        # (app, name) -> incarnation counter
     told = {}       # (app, name, inc) -> mailbox id
     owner = {}      # mailbox id -> (app, name, inc)
@@ -276,12 +286,16 @@ def check_C03(tr):
                                        {"nameplate": (b[0], name), "side": b[1], "events": st.raw_events}, known))
         if st.pre is not None and st.post is not None:
             gone = set(st.pre.np_by_key()) - set(st.post.np_by_key())
+            kept = set()
             for k in gone:
                 # a live nameplate may only go away by a release/close of its own app or by a sweep
                 actor = st.bind_pre.get(op.get("c")) if op["op"] == "recv" else None
                 t = op["msg"].get("type") if op["op"] == "recv" else op["op"]
                 legit = (t in ("release", "close") and actor is not None and actor[0] == k[0]) or t == "sweep" or st.crashed() \
                     or op["op"] == "restart"
+                if t == "sweep" and (st.i, (k[0], st.pre.np_by_key()[k][3])) in early:
+                    legit = False
+                    kept.add(k)
                 if not legit:
                     out.append(Finding("C03", "a nameplate stays bound to its mailbox for as long as it lives", st.i,
                                        {"nameplate": k, "deleted_by": proto_line(op)}))
@@ -289,7 +303,7 @@ def check_C03(tr):
             for k in st.pre.np_by_key():
                 if k in st.post.np_by_key() and st.pre.np_by_key()[k][0] != st.post.np_by_key()[k][0]:
                     gone.add(k)
-            for k in gone:
+            for k in gone - kept:
                 inc[k] = inc.get(k, 0) + 1
     return out
 
